@@ -58,7 +58,7 @@ RULE = ("cases = batches of inputs: (a) format_bytes on complete integer lists (
         "distinct batch descriptions")
 ASSUMPTIONS = ["Python int/Fraction arithmetic and the harness's own unit tables (SI/IEC byte prefixes, time units) are the reference",
                "keys handed to key_split are hashable (it is an lru_cache'd function)"]
-BUDGET = {"quick": 30, "thorough": 420}
+BUDGET = {"quick": 45, "thorough": 420}
 FLOORS = {
     "quick": {"evaluations": 120, "distinct_nontrivial": 120,
               "counters": {"format_calls": 260000, "roundtrip_checks": 260000, "len_checks": 260000,
@@ -66,8 +66,11 @@ FLOORS = {
                            "parse_bytes_unit_checks": 4000, "parse_timedelta_unit_checks": 7500,
                            "key_split_calls": 5500, "natural_sort_key_calls": 7500},
               "sets": {"unit_spellings": 46}},
-    "thorough": {"evaluations": 0, "distinct_nontrivial": 0,
-                 "counters": {},
+    "thorough": {"evaluations": 4800, "distinct_nontrivial": 4800,
+                 "counters": {"format_calls": 2000000, "roundtrip_checks": 2000000, "len_checks": 2000000,
+                              "rounding_edge_values": 850000, "boundary_values": 280, "random_ints": 700000,
+                              "parse_bytes_unit_checks": 200000, "parse_timedelta_unit_checks": 210000,
+                              "key_split_calls": 400000, "natural_sort_key_calls": 540000},
                  "sets": {"unit_spellings": 46}},
 }
 EXHAUSTIVE_SPACE = {
